@@ -23,7 +23,7 @@ def export_schedules(ctx, n):
     if not r.exports:
         raise vlib.CheckError("no history schedules exported")
     rnd = random.Random(ctx.seed)
-    ex = list(r.exports)
+    ex = sorted(r.exports, key=lambda e: json.dumps(e, sort_keys=True))   # TLC's print order depends on worker timing
     rnd.shuffle(ex)
     path = ctx.path("sched.json")
     with open(path, "w") as f:
@@ -86,7 +86,7 @@ def main(ctx):
     # with real DelegateTx transactions, all members are validated in the same epoch, and the epoch block is evaluated by
     # the proposer and 6 replicas (independent samples of Go's map order)
     g = chainlib.model_run(ctx, "EpochLoop.tla", "MC_EpochLoop.cfg")
-    graphs = [e for e in g.exports if "graph" in e]
+    graphs = sorted([e for e in g.exports if "graph" in e], key=lambda e: json.dumps(e, sort_keys=True))
     if not graphs:
         raise vlib.CheckError("EpochLoop exported no order-sensitive graph")
     rnd = random.Random(ctx.seed)
